@@ -89,7 +89,7 @@ def make_bio_adf(e, tabs, n):
             'ac': VecObj([B.BioBdd(n, [x if is_sym(x) else bool(x) for x in t]) for t in tabs]),
             'vars': VecObj([Struct([i]) for i in range(n)]), 'varset': B.BioVarSet(names), 'rewrite': NONE()}
     order = e.structs_q[('lib/src/adfbiodivine.rs', 'Adf')]
-    bio = Struct([vals[f] for f in order])
+    bio = Struct([vals[f] if f in vals else e.default_field('lib/src/adfbiodivine.rs', 'Adf', f) for f in order])
     return bio, Ref([bio], 0)
 
 
